@@ -36,6 +36,10 @@ pub struct StatsCase {
     pub sessions: Vec<Vec<RecSpec>>,
     pub when: i64,
     pub uuid_seed: u64,
+    /// per session: offset added to `when` (a later session may carry older time stamps, as when
+    /// an older export is imported after newer records exist)
+    #[serde(default)]
+    pub when_offsets: Vec<i64>,
 }
 
 const KINDS: [LintKind; 10] = [
@@ -122,9 +126,16 @@ pub fn test_stats(c: &StatsCase, ctx: &mut CaseCtx) -> Result<(), String> {
     let sessions: Vec<Vec<Record>> = c
         .sessions
         .iter()
-        .map(|s| build_records(s, c.when, &mut seed))
+        .enumerate()
+        .map(|(i, s)| build_records(s, c.when.wrapping_add(c.when_offsets.get(i).copied().unwrap_or(0)), &mut seed))
         .collect();
     let all: Vec<Record> = sessions.iter().flatten().cloned().collect();
+    let older_later = sessions.windows(2).any(|w| match (w[0].last(), w[1].first()) {
+        (Some(a), Some(b)) => b.when < a.when,
+        _ => false,
+    });
+    ctx.class_if(older_later, "later_session_has_older_time_stamps");
+    ctx.class_if(sessions.len() >= 2 && sessions.iter().any(|s| s.is_empty()), "empty_session_among_others");
     let weird = all.iter().any(|r| match &r.kind {
         RecordKind::Lint { context, .. } => context.iter().any(|t| {
             t.content
@@ -197,6 +208,28 @@ pub fn test_stats(c: &StatsCase, ctx: &mut CaseCtx) -> Result<(), String> {
     if one != log {
         return Err("write(a ++ b) != write(a) ++ write(b)".to_string());
     }
+    // the harper.js path: each session's file is imported into one linter object, whose export
+    // must be the concatenation
+    {
+        let mut linter = harper_wasm::Linter::new(harper_wasm::Dialect::American);
+        for (i, srecs) in sessions.iter().enumerate() {
+            let mut buf = vec![];
+            Stats { records: srecs.clone() }.write(&mut buf).map_err(|e| format!("write failed: {e}"))?;
+            let file = String::from_utf8(buf).map_err(|e| format!("the log is not UTF-8: {e}"))?;
+            linter
+                .import_stats_file(file)
+                .map_err(|e| format!("import_stats_file rejects session {i} ({} records) written by Stats::write: {e}", srecs.len()))?;
+        }
+        let exported = linter.generate_stats_file();
+        let got = Stats::read(&mut exported.as_bytes()).map_err(|e| format!("the file from generate_stats_file cannot be read: {e}"))?;
+        if got.records != all {
+            let i = got.records.iter().zip(&all).position(|(a, b)| a != b).unwrap_or(got.records.len().min(all.len()));
+            return Err(format!(
+                "import_stats_file of {} sessions then generate_stats_file: {} records, expected the concatenation ({}); first difference at #{i}: expected when={:?}, got when={:?}",
+                sessions.len(), got.records.len(), all.len(), all.get(i).map(|r| r.when), got.records.get(i).map(|r| r.when)
+            ));
+        }
+    }
     // summary
     let summary = back.summarize();
     let n_lint = all
@@ -267,11 +300,16 @@ fn stats_strategy() -> BoxedStrategy<StatsCase> {
         proptest::collection::vec(proptest::collection::vec(rec_spec(), 0..5), 1..5),
         prop_oneof![Just(0i64), Just(i64::MAX), Just(i64::MIN), any::<i64>(), 1_600_000_000i64..1_900_000_000],
         any::<u64>(),
+        prop_oneof![
+            2 => Just(vec![]),
+            3 => proptest::collection::vec(prop_oneof![Just(0i64), -100_000_000i64..100_000_000, -3i64..3], 1..5),
+        ],
     )
-        .prop_map(|(sessions, when, uuid_seed)| StatsCase {
+        .prop_map(|(sessions, when, uuid_seed, when_offsets)| StatsCase {
             sessions,
             when,
             uuid_seed,
+            when_offsets,
         })
         .boxed()
 }
@@ -402,7 +440,7 @@ pub fn test_ls_stats(c: &LsStatsCase, ctx: &mut CaseCtx) -> Result<(), String> {
 }
 
 pub fn run(run: &mut Run) {
-    run.rule = "histories of 1-4 append sessions of 0-4 record specs: synthetic lint records whose context tokens are arbitrary-Unicode Unlintable tokens (newline, CR, U+2028/2029, NEL, quotes, backslashes, controls, astral) or the real tokens harper lexes from generated words/sentences/number literals; all lints of a generated document via RecordKind::from_lint; configuration-update records from G-CONFIG; arbitrary timestamps and uuids. Oracle: exactly one line feed per record, read(write(a)++write(b)) == a++b, write is a homomorphism over concatenation, summary = reference fold. Non-trivial = a context contains a line-break-like or control char and there are >=2 sessions; distinct by case.".into();
+    run.rule = "histories of 1-4 append sessions of 0-4 record specs: synthetic lint records whose context tokens are arbitrary-Unicode Unlintable tokens (newline, CR, U+2028/2029, NEL, quotes, backslashes, controls, astral) or the real tokens harper lexes from generated words/sentences/number literals; all lints of a generated document via RecordKind::from_lint; configuration-update records from G-CONFIG; arbitrary timestamps (a later session may carry older ones) and uuids. The same sessions are also imported one by one into a harper.js Linter (import_stats_file) whose generate_stats_file must read back as the concatenation. Oracle: exactly one line feed per record, read(write(a)++write(b)) == a++b, write is a homomorphism over concatenation, summary = reference fold. Non-trivial = a context contains a line-break-like or control char and there are >=2 sessions; distinct by case.".into();
     if !run.strict && run.known.get(KF_NONFINITE).is_some() {
         let c = StatsCase {
             sessions: vec![vec![RecSpec::DocLints {
@@ -411,6 +449,7 @@ pub fn run(run: &mut Run) {
             }]],
             when: 0,
             uuid_seed: 1,
+            when_offsets: vec![],
         };
         let _ = run.single("known_witnesses", &c, test_stats);
     }
@@ -419,6 +458,8 @@ pub fn run(run: &mut Run) {
     run.require_class("append_sessions", "linebreak_or_control_in_context", (n / 4) as u64);
     run.require_class("append_sessions", "multi_session", (n / 3) as u64);
     run.require_class("append_sessions", "has_config_record", (n / 5) as u64);
+    run.require_class("append_sessions", "later_session_has_older_time_stamps", (n / 10) as u64);
+    run.require_class("append_sessions", "empty_session_among_others", (n / 20) as u64);
 
     let n = run.n(400, 20_000);
     run.prop(
